@@ -347,7 +347,9 @@ def evalOp (fi : FieldInfo) (vals : Array Nat) (inputs : List Nat) (toks : List 
   | ["or", l] => do out [b2n ((← vs l).any (· = 1))]
   | ["xor", l] => do out [((← vs l).foldl (· + ·) 0) % 2]
   | ["not", a] => do out [1 - (← v a)]
-  | ["sel", cd, a, b] | ["bsel", cd, a, b] => do out [if (← v cd) = 1 then (← v a) else (← v b)]
+  | ["sel", cd, a, b] | ["bsel", cd, a, b] => do
+    let (x, y) := (← v a, ← v b)
+    out [if (← v cd) = 1 then x else y]
   | ["cswap", cd, a, b] | ["bcswap", cd, a, b] => do
     let (x, y) := (← v a, ← v b)
     out (if (← v cd) = 1 then [y, x] else [x, y])
